@@ -110,3 +110,85 @@ def scribble(model, kind, nprng, names, initial, donor=None, factor=1.0):
         prob.set_val(name, new.reshape(np.shape(outs._abs_get_val(name, flat=False))))
         n += 1
     return n
+
+
+# ------------------------------------------------------------------------------------------------
+# SchedGS: schedule-level simulation of the aerostructural Gauss-Seidel exchange
+# ------------------------------------------------------------------------------------------------
+
+SCHED_ACTIONS = ("run", "stale", "skip", "dup", "restart")
+
+
+def make_sched_gs(schedule, initial_outputs, counters):
+    """Return a NonlinearBlockGS subclass instance executing ``schedule`` (list of sweeps) before
+    falling back to the shipped sweep.  A sweep = {"order": [node names], "actions": {node: action},
+    "relax": theta or None, "abort": node or None}.  Sweep 1 of every solve is the clean one that
+    OpenMDAO performs inside ``_run_apply`` (it does not go through ``_gs_iter``), so in-flight
+    state exists before the first fault.  While faulty sweeps are being played the convergence test
+    is disabled (a sweep in which every node is skipped has delta-outputs = 0, which the shipped
+    criterion would mistake for convergence); once faults stop, the shipped criterion decides."""
+    import openmdao.api as om
+
+    class SchedGS(om.NonlinearBlockGS):
+        SOLVER = "NL: NLBGS"
+
+        def __init__(self, **kw):
+            super().__init__(**kw)
+            self._sched = list(schedule)
+            self._pos = 0
+            self._last_faulty = False
+            self.clean_sweeps_after_faults = 0
+
+        def _gs_iter(self):
+            system = self._system()
+            if self._pos >= len(self._sched):
+                self._last_faulty = False
+                self.clean_sweeps_after_faults += 1
+                counters["clean_sweeps"] = counters.get("clean_sweeps", 0) + 1
+                return super()._gs_iter()
+            sw = self._sched[self._pos]
+            self._pos += 1
+            self._last_faulty = True
+            counters["faulty_sweeps"] = counters.get("faulty_sweeps", 0) + 1
+            subs = {s.name: s for s in system._subsystems_myproc}
+            outputs = system._outputs
+            snap = outputs.asarray(copy=True) if sw.get("relax") else None
+            for name in sw["order"]:
+                sub = subs[name]
+                act = sw["actions"].get(name, "run")
+                if sw.get("abort") == name:
+                    counters["abort"] = counters.get("abort", 0) + 1
+                    raise om.AnalysisError("verif: injected abort in sweep %d at node %s" % (self._pos, name))
+                if act == "skip":
+                    counters["skip"] = counters.get("skip", 0) + 1
+                    continue
+                if act == "restart":
+                    counters["restart"] = counters.get("restart", 0) + 1
+                    for vname in sub._outputs._abs_iter():
+                        outputs._abs_get_val(vname, flat=True)[:] = initial_outputs[vname]
+                if act == "stale":
+                    counters["stale"] = counters.get("stale", 0) + 1
+                else:
+                    system._transfer("nonlinear", "fwd", name)
+                sub._solve_nonlinear()
+                if act == "dup":
+                    counters["dup"] = counters.get("dup", 0) + 1
+                    system._transfer("nonlinear", "fwd", name)
+                    sub._solve_nonlinear()
+                if act == "run":
+                    counters["run"] = counters.get("run", 0) + 1
+            if list(sw["order"]) != [s.name for s in system._subsystems_myproc]:
+                counters["reorder"] = counters.get("reorder", 0) + 1
+            if snap is not None:
+                th = float(sw["relax"])
+                cur = outputs.asarray(copy=True)
+                outputs.set_val(snap + th * (cur - snap))
+                counters["relax"] = counters.get("relax", 0) + 1
+
+        def _iter_get_norm(self):
+            n = super()._iter_get_norm()
+            if self._last_faulty:
+                return max(n, 1.0)
+            return n
+
+    return SchedGS
